@@ -118,7 +118,7 @@ class CaseGen(object):
       kk = rnd.random()
       if replace:
         cand = [x for x in sorted(rows) + [top + 1, top + 2, 1, 2, 3, rnd.randint(1, 40)] if x not in taken and x > 0]
-        x = rnd.choice(cand)
+        x = rnd.choice(cand) if cand else max(taken | set(rows)) + 1
         kind = 'existing_ok' if x in rows else 'fresh'
       else:
         free_holes = [x for x in holes if x not in taken]
